@@ -990,6 +990,8 @@ class SPGetter(FSContract):
             ex.oblige(self.oname("ensures:returns_the_materialised_state_point_object"), z3.BoolVal(ok))
             if ok:
                 ex.oblige(self.oname("ensures:state_point_data_hashes_to_the_job_id"), CALC(spv_of(sd)) == me)
+                ex.oblige(self.oname("ensures:the_cached_state_point_is_plain_data,_never_the_live_state_point_object"),
+                          z3.BoolVal(not isinstance(job.fields.get("_cached_statepoint"), Obj)), note=repr(type(job.fields.get("_cached_statepoint")).__name__))
                 for lab, c in inv_job(ctx, job):
                     ex.oblige(self.oname("inv:" + lab), c)
         else:
@@ -1625,7 +1627,7 @@ CONTRACTS += [JobClear(), JobReset()]
 
 class CachedStatepoint(FSContract):
     target = f"{JOB}.Job.cached_statepoint"
-    properties = ("C02", "C08")
+    properties = ("C01", "C02", "C08", "C09")
     faults = False
 
     def make_ctx(self, case):
@@ -1635,6 +1637,7 @@ class CachedStatepoint(FSContract):
 
         def get_sp(interp, b):
             ctx.ghost["fetched"].append(b["job_id"])
+            ctx.ghost["validate"] = b.get("validate")
             return SSP(z3.Const("sp_fetched", SPv))
         ctx.callee_contracts[f"{PRJ}.Project._get_statepoint"] = get_sp
         ctx.externals[types.MappingProxyType] = lambda interp, v: ("proxy", v)
@@ -1661,6 +1664,8 @@ class CachedStatepoint(FSContract):
         else:
             ex.oblige(self.oname("ensures:an_unknown_state_point_is_looked_up_once_by_the_job_id_and_remembered"),
                       z3.BoolVal(ok and len(ctx.ghost["fetched"]) == 1 and pre["job"].fields["_cached_statepoint"] is r[1]))
+            ex.oblige(self.oname("call[_get_statepoint]:the_lookup_validates_what_it_reads_against_the_job_id"), z3.BoolVal(ctx.ghost.get("validate") is True),
+                      note=f"validate={ctx.ghost.get('validate')!r}")
 
 
 CONTRACTS += [CachedStatepoint()]
